@@ -3,6 +3,7 @@ import CstModel.Proofs.WalkN
 import CstModel.Proofs.Walk
 import CstModel.Proofs.TokenSpec
 import CstModel.Proofs.BackN
+import CstModel.Props.Gen
 open Cst.C03
 #print axioms parent_child
 #print axioms ancestorsOf_spec
@@ -36,3 +37,10 @@ open Cst.C03
 #print axioms forwarders_resolved_ok
 #print axioms elem_token_first_last
 #print axioms elem_token_ancestors
+#print axioms Cst.Gen.not_into_node
+#print axioms Cst.Gen.not_into_token
+#print axioms Cst.Gen.not_as_node
+#print axioms Cst.Gen.not_as_token
+#print axioms Cst.Gen.not_as_ref
+#print axioms Cst.Gen.not_cloned
+#print axioms Cst.Gen.walk_map
